@@ -177,7 +177,18 @@ func (c15) Eval(c *Chooser, env *Env) *Outcome {
 	for fi := 0; fi < nfiles; fi++ {
 		name := fmt.Sprintf("%s/.github/workflows/%c%d.yml", root, 'a'+byte(fi), fi)
 		text, as, _ := composeWorkflow(c, GenOpts{Ties: true}, fi)
-		disk.Put(name, []byte(text))
+		if c.Weighted("world.symlink", 1, 6) {
+			// a workflow that is a symbolic link to a file outside the repository (or inside the
+			// sibling repository) still belongs to the repository that contains its path
+			target := fmt.Sprintf("/shared/wf/f%d.yml", fi)
+			if sib != "" && c.Bool("world.symlinkintosib") {
+				target = fmt.Sprintf("%s/shared-f%d.yml", sib, fi)
+			}
+			disk.Put(target, []byte(text))
+			disk.Symlink(name, target)
+		} else {
+			disk.Put(name, []byte(text))
+		}
 		assetNames = append(assetNames, as...)
 		files = append(files, name)
 	}
